@@ -129,7 +129,9 @@ class MockSock:
 
     def recvfrom(self, n):
         if self.inbox:
-            return self.inbox.pop(0)
+            item = self.inbox.pop(0)
+            # (a datagram longer than the buffer the caller offers is cut to it, as the operating system does)
+            return (item[0][:n],) + tuple(item[1:])
         raise _socket.timeout()
 
 
